@@ -1,0 +1,89 @@
+//go:build verif
+
+// Machine-checked contracts for package base (comment-only; read by /verif/govc).
+// Property C12: BufferReadWriter returns the same bytes, byte counts, sizes and offsets as an
+// operating-system file subjected to the same operations. The file model is the byte sequence
+// b.buf.buf (the aws.WriteAtBuffer's slice, whose own WriteAt/Bytes are assumed, see
+// contracts/externs/aws.spec) plus the cursor b.offset.
+
+package base
+
+//@ specfunc bshape(b *BufferReadWriter) bool = b != nil && b.buf != nil && 0 <= b.offset && b.offset <= 1099511627776 && 0 <= len(b.buf.buf) && len(b.buf.buf) <= cap(b.buf.buf) && len(b.buf.buf) <= 1099511627776
+
+// A new buffer is an empty file with cursor 0.
+//@ func NewBufferReadWriter
+//@   requires size <= 1099511627776
+//@   nopanic
+//@   ensures result != nil && fresh(result) && result.buf != nil && result.offset == 0
+
+// write(fd, p): bytes land at the cursor, the cursor advances by len(p), the size becomes
+// max(size, cursor+len(p)), a gap (cursor beyond the end) reads as zeros.
+//@ func BufferReadWriter.Write
+//@   requires bshape(b) && b.offset + len(p) <= 1099511627776
+//@   nopanic
+//@   modifies b.offset, b.buf.buf, mem b.buf.buf, b.buf.GrowthCoeff
+//@   ensures count: n == len(p) && err == nil && b.offset == old(b.offset) + len(p)
+//@   ensures size: len(b.buf.buf) == max(old(len(b.buf.buf)), old(b.offset) + len(p))
+//@   ensures bytes: forall i int :: 0 <= i && i < len(p) ==> b.buf.buf[old(b.offset) + i] == old(p[i])
+//@   ensures before: forall i int :: 0 <= i && i < old(len(b.buf.buf)) && (i < old(b.offset) || i >= old(b.offset) + len(p)) ==> b.buf.buf[i] == old(b.buf.buf[i])
+//@   ensures gap: old(wabzero(b.buf)) ==> (forall i int :: old(len(b.buf.buf)) <= i && i < old(b.offset) ==> b.buf.buf[i] == 0) && wabzero(b.buf)
+
+// pwrite(fd, p, off): as write at an explicit offset, cursor untouched.
+//@ func BufferReadWriter.WriteAt
+//@   requires bshape(b) && off + len(p) <= 1099511627776
+//@   nopanic
+//@   modifies b.buf.buf, mem b.buf.buf, b.buf.GrowthCoeff
+//@   ensures negative: off < 0 ==> n == 0 && err != nil && b.buf.buf == old(b.buf.buf)
+//@   ensures count: off >= 0 ==> n == len(p) && err == nil
+//@   ensures size: off >= 0 ==> len(b.buf.buf) == max(old(len(b.buf.buf)), off + len(p))
+//@   ensures bytes: off >= 0 ==> (forall i int :: 0 <= i && i < len(p) ==> b.buf.buf[off + i] == old(p[i]))
+//@   ensures before: off >= 0 ==> (forall i int :: 0 <= i && i < old(len(b.buf.buf)) && (i < off || i >= off + len(p)) ==> b.buf.buf[i] == old(b.buf.buf[i]))
+//@   ensures gap: off >= 0 && old(wabzero(b.buf)) ==> (forall i int :: old(len(b.buf.buf)) <= i && i < off ==> b.buf.buf[i] == 0) && wabzero(b.buf)
+//@   ensures cursor: b.offset == old(b.offset)
+
+// read(fd, p): min(len(p), size-cursor) bytes from the cursor, cursor advances by that count.
+//@ func BufferReadWriter.Read
+//@   requires bshape(b)
+//@   nopanic
+//@   modifies b.offset, mem p
+//@   ensures count: n == (old(b.offset) >= len(b.buf.buf) ? 0 : min(len(p), len(b.buf.buf) - old(b.offset)))
+//@   ensures cursor: b.offset == old(b.offset) + n
+//@   ensures bytes: forall i int :: 0 <= i && i < n ==> p[i] == old(b.buf.buf[b.offset + i])
+//@   ensures rest: forall i int :: n <= i && i < len(p) ==> p[i] == old(p[i])
+//@   ensures eof: old(b.offset) >= len(b.buf.buf) ==> err == io.EOF
+//@   ensures full: n == len(p) && old(b.offset) < len(b.buf.buf) ==> err == nil
+
+// pread(fd, p, off).
+//@ func BufferReadWriter.ReadAt
+//@   requires bshape(b)
+//@   nopanic
+//@   modifies mem p
+//@   ensures negative: off < 0 ==> n == 0 && err != nil
+//@   ensures count: off >= 0 ==> n == (off >= len(b.buf.buf) ? 0 : min(len(p), len(b.buf.buf) - off))
+//@   ensures bytes: forall i int :: 0 <= i && i < n ==> p[i] == old(b.buf.buf[off + i])
+//@   ensures rest: forall i int :: n <= i && i < len(p) ==> p[i] == old(p[i])
+//@   ensures short: off >= 0 && n < len(p) ==> err == io.EOF
+//@   ensures full: off >= 0 && n == len(p) && off < len(b.buf.buf) ==> err == nil
+//@   ensures cursor: b.offset == old(b.offset)
+
+// lseek(fd, offset, whence).
+//@ func BufferReadWriter.Seek
+//@   requires bshape(b) && -1099511627776 <= offset && offset <= 1099511627776
+//@   nopanic
+//@   modifies b.offset
+//@   ensures start: whence == 0 && offset >= 0 ==> result1 == nil && result0 == offset && b.offset == offset
+//@   ensures current: whence == 1 && old(b.offset) + offset >= 0 ==> result1 == nil && result0 == old(b.offset) + offset && b.offset == result0
+//@   ensures end: whence == 2 && len(b.buf.buf) + offset >= 0 ==> result1 == nil && result0 == len(b.buf.buf) + offset && b.offset == result0
+//@   ensures failed: result1 != nil ==> result0 == 0 && b.offset == old(b.offset)
+//@   ensures fails_iff: (result1 != nil) <==> (whence < 0 || whence > 2 || (whence == 0 && offset < 0) || (whence == 1 && old(b.offset) + offset < 0) || (whence == 2 && len(b.buf.buf) + offset < 0))
+
+// fstat(fd).st_size
+//@ func BufferReadWriter.Size
+//@   requires bshape(b)
+//@   nopanic
+//@   ensures result == len(b.buf.buf)
+
+//@ func BufferReadWriter.Bytes
+//@   requires bshape(b)
+//@   nopanic
+//@   ensures result == b.buf.buf
